@@ -2,15 +2,11 @@
 C18 — each amplitude is emitted with exactly its Bose-symmetrised permutations.
 `listStructure` is `ModelDecay.list_structure` (DL/Model/Perm.lean).
 -/
-import Mathlib.Data.List.Nodup
-import DL.Model.Perm
+import DL.Lemmas.Cartesian
+import DL.Lemmas.ExceptList
+import DL.Model.GooFit
+import DL.Gen.SpinTable
 namespace DL
-
-/-- position-wise relation between two lists of equal length -/
-def Pointwise {α β : Type} (R : α → β → Prop) : List α → List β → Prop
-  | [], [] => True
-  | a :: as, b :: bs => R a b ∧ Pointwise R as bs
-  | _, _ => False
 
 theorem mem_positionsOf (fs : List String) (name : String) (i : Nat) :
     i ∈ positionsOf fs name ↔ fs[i]? = some name := by
@@ -25,45 +21,6 @@ theorem mem_positionsOf (fs : List String) (name : String) (i : Nat) :
 
 theorem positionsOf_nodup (fs : List String) (name : String) : (positionsOf fs name).Nodup :=
   List.Nodup.filter _ List.nodup_range
-
-theorem mem_cartesian {α : Type} (ls : List (List α)) (a : List α) :
-    a ∈ cartesian ls ↔ Pointwise (fun x l => x ∈ l) a ls := by
-  induction ls generalizing a with
-  | nil => cases a <;> simp [cartesian, Pointwise]
-  | cons l ls ih =>
-    cases a with
-    | nil => simp [cartesian, Pointwise]
-    | cons x a =>
-      simp only [cartesian, List.mem_flatMap, List.mem_map, Pointwise]
-      constructor
-      · rintro ⟨y, hy, b, hb, heq⟩
-        simp only [List.cons.injEq] at heq
-        obtain ⟨rfl, rfl⟩ := heq
-        exact ⟨hy, (ih b).mp hb⟩
-      · rintro ⟨hx, ha⟩
-        exact ⟨x, hx, a, (ih a).mpr ha, rfl⟩
-
-theorem cartesian_nodup {α : Type} (ls : List (List α)) (h : ∀ l ∈ ls, l.Nodup) : (cartesian ls).Nodup := by
-  induction ls with
-  | nil => simp [cartesian]
-  | cons l ls ih =>
-    have hl : l.Nodup := h l List.mem_cons_self
-    have hr : (cartesian ls).Nodup := ih (fun l' hl' => h l' (List.mem_cons_of_mem _ hl'))
-    simp only [cartesian]
-    rw [List.nodup_flatMap]
-    constructor
-    · intro x _
-      exact hr.map (fun a b hab => by simpa using hab)
-    · have hp : List.Pairwise (fun a b => a ≠ b) l := hl
-      refine hp.imp ?_
-      intro a b hne
-      simp only [Function.onFun]
-      intro z hz1 hz2
-      simp only [List.mem_map] at hz1 hz2
-      obtain ⟨u, _, rfl⟩ := hz1
-      obtain ⟨w, _, hw⟩ := hz2
-      simp only [List.cons.injEq] at hw
-      exact hne hw.1.symm
 
 theorem allDistinct_iff (a : List Nat) : allDistinct a = true ↔ a.Nodup := by
   induction a with
@@ -122,5 +79,57 @@ theorem C18_count (s fs : List String) (L : List (List Nat)) (h : listStructure 
 /-- non-vacuity: K- pi+ pi+ pi- with the amplitude's particles pi+ K- pi+ pi-: two assignments -/
 example : listStructure ["pi+", "K-", "pi+", "pi-"] ["K-", "pi+", "pi+", "pi-"] = .ok [[1, 0, 2, 3], [2, 0, 1, 3]] := by
   decide
+
+/-- C18 (emitted code): whatever is emitted for an amplitude declares the number of its
+    permutations, carries in the spin-factor block every spin factor once per permutation (permutation
+    by permutation), and has one block of lineshapes per permutation, built from that permutation -/
+theorem C18_emit (table : List (String × List String)) (n : GNodeA) (fs : List String) (a : AmpOut)
+    (h : emitAmp table n fs = .ok a) :
+    ∃ perms sfs top blocks, listStructure (flatNames n) fs = .ok perms ∧ spinFactors table n = .ok sfs ∧
+      topology n = .ok top ∧ perms.mapM (linesFor top (vertexes n)) = .ok blocks ∧
+      a.nPerms = perms.length ∧
+      a.spinBlock = perms.flatMap (fun p => sfs.map fun sf => ({ sf := sf, perm := p } : SfOut)) ∧
+      a.lineBlock = blocks.flatten ∧ blocks.length = perms.length := by
+  unfold emitAmp at h
+  split at h
+  · cases h
+  · rename_i perms hp
+    split at h
+    · cases h
+    · cases h
+    · rename_i sfs top hs ht
+      split at h
+      · cases h
+      · rename_i blocks hb
+        simp only [Except.ok.injEq] at h
+        subst h
+        exact ⟨perms, sfs, top, blocks, hp, hs, ht, hb, rfl, rfl, rfl, mapM_except_length _ _ _ hb⟩
+
+/-- the spin-factor block has (number of permutations) x (number of spin factors) entries -/
+theorem C18_emit_sf_count (table : List (String × List String)) (n : GNodeA) (fs : List String) (a : AmpOut)
+    (h : emitAmp table n fs = .ok a) :
+    ∃ sfs, spinFactors table n = .ok sfs ∧ a.spinBlock.length = a.nPerms * sfs.length := by
+  obtain ⟨perms, sfs, _, _, _, hs, _, _, hn, hsb, _, _⟩ := C18_emit table n fs a h
+  refine ⟨sfs, hs, ?_⟩
+  rw [hsb, hn]
+  clear hsb hn
+  induction perms with
+  | nil => simp
+  | cons p r ih => simp [List.flatMap_cons, ih, Nat.add_mul, Nat.add_comm]
+
+/-- the invariant-mass symbols of a permutation are built from that permutation and the topology -/
+theorem C18_masses (a b c d : Nat) :
+    massSymbols .ff1234 [a, b, c, d] = .ok ("M_" ++ toString (a + 1) ++ toString (b + 1), "M_" ++ toString (c + 1) ++ toString (d + 1)) ∧
+    massSymbols .ff1_2_34 [a, b, c, d] = .ok ("M_" ++ toString (a + 1) ++ toString (b + 1) ++ "_" ++ toString (c + 1), "M_" ++ toString (a + 1) ++ toString (b + 1)) := by
+  simp [massSymbols]
+
+/-- every supported spin structure of the property has an entry in the regenerated table -/
+theorem C18_table_total :
+    ["DtoV1V2_V1toP1P2_V2toP3P4", "DtoV1V2_V1toP1P2_V2toP3P4_P", "DtoV1V2_V1toP1P2_V2toP3P4_D", "DtoV1S2_V1toP1P2_S2toP3P4",
+     "DtoS1S2_S1toP1P2_S2toP3P4", "DtoA1P1_A1toV2P2_V2toP3P4", "DtoA1P1_A1toV2P2Dwave_V2toP3P4", "DtoA1P1_A1toS2P2_S2toP3P4",
+     "DtoT1P1_T1toV2P2_V2toP3P4", "Dtos1P1_s1toS2P2_S2toP3P4", "Dtos1P1_s1toV2P2_V2toP3P4"].all
+      (fun k => (Gen.knownSpinFactors.find? (·.1 == k)).isSome) = true ∧
+    Gen.knownSpinFactors.all (fun kv => kv.2.all (Gen.sf4Body.contains ·) && !kv.2.isEmpty) = true := by
+  constructor <;> decide
 
 end DL
